@@ -85,6 +85,10 @@ def _lift(x):
         return q_val(Fraction(x.numerator, x.denominator)), 'dec', False
     if isinstance(x, Fraction):
         return q_val(x), 'frac', False
+    if isinstance(x, float) and x == x and x not in (float('inf'), float('-inf')):
+        # a float operand enters arithmetic with its exact binary value (decimalfp converts it exactly;
+        # with a Fraction the result is a float again, see SymRat._bin)
+        return q_val(Fraction(x)), 'float', False
     return None
 
 
@@ -138,6 +142,16 @@ class SymRat:
         oz, of, osym = lo
         a, b = (oz, self.z) if swap else (self.z, oz)
         fa, fb = (of, self.flav) if swap else (self.flav, of)
+        if of == 'float':
+            if self.flav == 'frac':
+                # Fraction (op) float is a float in Python: outside the exact fragment
+                zz = {'add': a + b, 'sub': a - b, 'mul': a * b}.get(op)
+                if zz is None:
+                    if E.branch(b == 0):
+                        raise ZeroDivisionError('float division by zero (symbolic)')
+                    zz = a / b
+                return E.concretise_float(zz)
+            fa, fb = ('dec', self.flav) if swap else (self.flav, 'dec')
         if op == 'add':
             return _mk(a + b, _res_flav(fa, fb, op))
         if op == 'sub':
